@@ -25,8 +25,10 @@ package state_test
 // references a service?" above serviceGatewayNodes).
 
 import (
+	"encoding/json"
 	"fmt"
 	"os"
+	"path/filepath"
 	"sort"
 	"strings"
 	"testing"
@@ -820,6 +822,15 @@ func TestVerifC06Replay(t *testing.T) {
 		}
 		sort.Strings(names)
 		for _, name := range names {
+			if dir := os.Getenv("VERIF_C06_DUMP_WITNESSES"); dir != "" { // writes the corpus form of the witnesses
+				rp := verifkit.Replay{Property: "C06", Key: ws[name].key, Detail: "fixed witness history of a known finding"}
+				for _, op := range ws[name].ops {
+					b, _ := json.Marshal(op)
+					rp.Ops = append(rp.Ops, b)
+				}
+				b, _ := json.MarshalIndent(rp, "", " ")
+				_ = os.WriteFile(filepath.Join(dir, name+".json"), b, 0o644)
+			}
 			c := rec.NewCase()
 			c.Label("witness:" + name)
 			verifC06Run(t, c, feed(ws[name].ops))
